@@ -110,6 +110,14 @@ func (fr *Frame) computeFrame(st0 *State) {
 					k, s := fc.bKey(et)
 					fc.registerComp(k, s)
 					fi.cells = append(fi.cells, frameCell{key: k, isB: true, c: and(eq("p", sarr(v.t)), inWin("i")), pc: eq("p", sarr(v.t))})
+				} else if a, isArr := isArrayT(et); isArr && isLeaf(a.Elem()) {
+					// elements are leaf arrays ([]crypto.Hash): the block of element j is Elem(arr, j). Quantifier-free form of
+					// `exists wj :: inWin(wj) && p == Elem(arr, wj)` (Elem is a constructor); the existential form below puts a fresh
+					// skolem into every instance of the frame condition and starves the solvers (added for C07).
+					k, s := fc.bKey(a.Elem())
+					fc.registerComp(k, s)
+					c := and("((_ is Elem) p)", eq("(epar p)", sarr(v.t)), inWin("(eix p)"))
+					fi.cells = append(fi.cells, frameCell{key: k, isB: true, c: c, pc: c})
 				} else {
 					// elements are aggregates living at Elem(arr, j): every cell below such an element
 					var sub []frameCell
